@@ -1020,6 +1020,21 @@ fn _update_tx_pool_for_reorg(
     // that involves `remove_committed_txs` before `remove_expired`.
     tx_pool.remove_committed_txs(attached.iter(), callbacks, detached_headers);
     tx_pool.remove_by_detached_proposal(detached_proposal_id.iter());
+    // `detached_proposal_id` only names ids that left the committable set. A reorg can also
+    // detach the block that proposed a transaction still waiting in the gap: back to pending.
+    if mine_mode {
+        let stale_gap: Vec<ProposalShortId> = tx_pool
+            .pool_map
+            .entries
+            .get_by_status(&Status::Gap)
+            .iter()
+            .map(|entry| entry.inner.proposal_short_id())
+            .filter(|id| {
+                !snapshot.proposals().contains_gap(id) && !snapshot.proposals().contains_proposed(id)
+            })
+            .collect();
+        tx_pool.remove_by_detached_proposal(stale_gap.iter());
+    }
 
     // mine mode:
     // pending ---> gap ----> proposed
